@@ -454,6 +454,9 @@ pub struct ReplyCase {
     pub rpc_index: u64,
     /// ... is answered with this JSON-RPC error code (0: a result of the wrong shape)
     pub code: i32,
+    /// instead: *every* call of this method, from the faulty step on, gets a complete reply of the wrong shape
+    #[serde(default)]
+    pub always_wrong_shape_for: Option<String>,
 }
 
 /// Runs the case; Err(signature, detail) if a handler or the chain loop aborts or the tower is not live after.
@@ -468,7 +471,10 @@ pub fn run_reply_case(c: &ReplyCase) -> Result<(), (String, String)> {
     }
     {
         let mut e = world.env.lock();
-        e.rpc_override = Some((e.rpc_count + c.rpc_index, c.code));
+        match &c.always_wrong_shape_for {
+            Some(m) => e.rpc_wrong_shape_for = Some(m.clone()),
+            None => e.rpc_override = Some((e.rpc_count + c.rpc_index, c.code)),
+        }
     }
     let ev = match &c.faulty {
         Faulty::Poll => Ev::Poll,
@@ -486,7 +492,7 @@ pub fn run_reply_case(c: &ReplyCase) -> Result<(), (String, String)> {
             let file = loc.split(':').next().unwrap_or("");
             let msg: String = msg.chars().take(80).collect();
             let when = if i == 0 { format!("during:{what}") } else { format!("{i}-steps-after:{what}") };
-            return Err((format!("panic-after-node-reply:{file}:{msg}:{when}"), format!("{} rpc #{} answered {}: {p}", c.name, c.rpc_index, c.code)));
+            return Err((format!("panic-after-node-reply:{file}:{msg}:{when}"), format!("{} rpc #{} answered {}{}: {p}", c.name, c.rpc_index, c.code, c.always_wrong_shape_for.as_ref().map(|m| format!(" (every {m} answered with a result of the wrong shape)")).unwrap_or_default())));
         }
         if let Some(e) = o.boot_error {
             return Err((format!("restart-fails-after-node-reply:{what}"), format!("{} rpc #{} answered {}: {e}", c.name, c.rpc_index, c.code)));
@@ -536,8 +542,13 @@ pub fn node_replies(run: &Run, tier: Tier) -> u64 {
         drop(w);
         for r in 0..(r1 - r0) {
             for code in codes.iter() {
-                cases.push(ReplyCase { name: name.clone(), cfg, prefix: prefix.clone(), faulty: faulty.clone(), rpc_index: r, code: *code });
+                cases.push(ReplyCase { name: name.clone(), cfg, prefix: prefix.clone(), faulty: faulty.clone(), rpc_index: r, code: *code, always_wrong_shape_for: None });
             }
+        }
+        // a node whose replies to one method never fit the client's structs (it is newer than the RPC library): not an
+        // outage to wait out - the tower must go on, whatever it makes of those replies
+        for m in ["getrawtransaction", "sendrawtransaction"] {
+            cases.push(ReplyCase { name: name.clone(), cfg, prefix: prefix.clone(), faulty: faulty.clone(), rpc_index: 0, code: 0, always_wrong_shape_for: Some(m.to_owned()) });
         }
     }
     let (res, _) = crate::explore::par_map(&cases, None, |_, c| run_reply_case(c));
